@@ -10,6 +10,11 @@ OVERRIDES = {
     # called from report_progress in the walk.  An additional log_step before the put changes no stored progress,
     # so the design round's "must report" was wrong: behaviour-preserving for the statement.
     'C11-progress-before-put': {'expect': 'silent', 'props': None, 'rule': None},
+    # round 0 called `min_res <= x_res AND min_res <= y_res` "outside the statements" (only non-square pixels differ).  An
+    # independent seeded change with the same effect (seeded/C17-2) demonstrates a source with min_res being asked for a
+    # request that is out of range on one axis, i.e. the statement's "resolution range excludes the resolution of the
+    # request" is broken for anisotropic requests -> must be reported (C17.f).
+    'G-C17-LCR-grid-L1155': {'expect': 'report', 'rule': 'C17.f', 'props': ['C17']},
 }
 
 
